@@ -56,6 +56,16 @@ Theorem C05_sd_vector_is_source_partial : forall ys sds cy cf cs sdlast spec,
 Proof. exact sdvec_prefix. Qed.
 Print Assumptions C05_sd_vector_is_source_partial.
 
+(* REFUTED (open known finding ysd-supplement-not-at-x, replayed on the real code by the monitor mon_c05_sdsuppl): "the SD paired with the supplemented
+   observation is the SD reported at the returned point".  The generated supplement is S[Xn], the SD of the LAST logged row: for a log whose last row
+   holds another point, no row holding the chosen point carries that SD. *)
+Theorem C05_sd_supplement_is_sd_at_x_refuted : exists (logu : list (list Q)) (logS : list Q) (u : list Q) (y sd cy : Q),
+  let sdlast := last logS (0 # 1) in
+  In u logu /\
+  forall i, nth_error logu i = Some u -> nth_error logS i <> Some (last (src_fs_sdvec [y] [sd] cy (0 # 1) (0 # 1) sdlast true) (0 # 1)).
+Proof. exact sd_supplement_is_sd_at_x_refuted. Qed.
+Print Assumptions C05_sd_supplement_is_sd_at_x_refuted.
+
 (* C05: the four restored incumbent fields come from ONE history row: the generated index expressions of yval, fval, fsd and u are the
    same expression - the argmin over the scores without their first row, plus one - the generated keys are the four columns in that
    order, the score of a row is fval + sigma * fsd with sigma the oracle sqrt(2) * erfcinv(2 * final_quantile); hence whatever the
